@@ -557,6 +557,17 @@ impl Stream {
         let group = self.consumer_groups.get_group(group_name)
             .ok_or_else(|| format!("NOGROUP No such consumer group {} for stream", group_name))?;
         
+        // An explicit id re-reads the consumer's own pending entries after that id. Nothing new is
+        // delivered, nothing else becomes pending and the group does not advance.
+        if after_id != StreamId::max() {
+            let ids = group.redeliver_own_pending(consumer_name, after_id, count);
+            let data = self.data.lock().unwrap();
+            let entries = ids.iter()
+                .filter_map(|id| data.entries.binary_search_by(|e| e.id.cmp(id)).ok().map(|idx| data.entries[idx].clone()))
+                .collect();
+            return Ok(entries);
+        }
+        
         // Get entries after the specified ID
         let data = self.data.lock().unwrap();
         let entries = if after_id == StreamId::max() {
